@@ -60,9 +60,19 @@ var c54Universe = []c54Pkg{
 
 // packages the resolver does not know; by the Go/Gno convention their name is
 // the last path element (the formatter can only assume that as well)
+//
+// A path may end in a version element (/v0, /v1, /v2, ...): Gno's package-name
+// rule (gnolang.ValidatePkgNameMatchesPath: "gno.land/r/foo/v2 expects package
+// foo") makes the element before it the name, so files refer to such a package
+// by that element. A last element that merely looks like a version ("v2x") is
+// an ordinary name.
 var c54Unknown = []c54Pkg{
 	{"gno.land/p/unknown/foo", "foo", []string{"Do", "Thing"}, []string{"Thing"}},
 	{"example.com/x/bar", "bar", []string{"Baz", "Qux"}, []string{"Qux"}},
+	{"gno.land/p/unknown/qux/v0", "qux", []string{"Make", "Item"}, []string{"Item"}},
+	{"gno.land/r/unknown/quux/v2", "quux", []string{"Get", "Entry", "Set"}, []string{"Entry"}},
+	{"example.com/y/zed/v12", "zed", []string{"Open", "Handle"}, []string{"Handle"}},
+	{"gno.land/p/unknown/v2x", "v2x", []string{"Run", "Conf"}, []string{"Conf"}},
 }
 
 // a handle is a name by which program text refers to a package
